@@ -228,9 +228,15 @@ def load (cfg : Cfg K V) (s : State K V) (b : Nat) (vals : List V) (parts : List
       let (s1, objs) := writeObjs cfg s parts
       .ok (s1.commit b t (objs.map .add))
 
-/-- `Branch.Delete` — as coded: every id is looked up in the tip snapshot, the ids are then
-    emitted one `Delete` each, duplicates included. -/
+/-- `uniqueIDs` (lake/branch.go): the listed ids without repetitions, first occurrences kept -/
+def uniqueIds : List Nat → List Nat
+  | [] => []
+  | x :: xs => x :: (uniqueIds xs).filter (· != x)
+
+/-- `Branch.Delete`: the id list is de-duplicated (fix f09056a37), every id is looked up in
+    the tip snapshot, one `Delete` action is emitted per id. -/
 def delete (s : State K V) (b : Nat) (ids : List Nat) : Except Err (State K V) :=
+  let ids := uniqueIds ids
   match s.tip b with
   | none => .error .noBranch
   | some t => match snapAt s.commits t with
